@@ -87,7 +87,7 @@ func writeEvidence(prop, tier string, seed int64, b *build, sr *searchResult, sa
 		"logical_steps":       logical,
 		"logical_steps_note":  "go-ucfg has no clock, timers, network or disk; simulated time is reported as logical steps = instrumented function entries + loop iterations executed inside the library",
 		"max_steps_one_operation": maxOp,
-		"step_budget":         2000000,
+		"step_budget":         300000,
 		"state_changing_ops":  stateOps,
 		"faults_fired":        faults,
 		"probes":              probes,
